@@ -297,11 +297,16 @@ def valid(kind, p, h):
     if kind == "Trapezoid":
         a, b, c, d = p
         return a <= b <= c <= d and a < d and math.isfinite(b) and math.isfinite(c)
+    def edge(s, e):
+        # an edge is vertical (s == e) or has a midpoint of its own: breakpoints that are neighbouring doubles, whose midpoint
+        # rounds onto one of them, make two pieces of the documented definition claim the same x
+        return s == e or s < 0.5 * (s + e) < e
+
     if kind == "PiShape":  # vertical edges (a == b, c == d) are degenerate but well defined by the piecewise definition
         a, b, c, d = p
-        return fin and a <= b <= c <= d and a < d
+        return fin and a <= b <= c <= d and a < d and edge(a, b) and edge(c, d)
     if kind in ("SShape", "ZShape"):
-        return fin and p[0] <= p[1]
+        return fin and p[0] <= p[1] and edge(p[0], p[1])
     if kind in ("Ramp", "Arc", "SemiEllipse", "Concave"):
         return fin and p[0] != p[1]
     if kind == "Rectangle":
